@@ -23,6 +23,7 @@
 #include <unistd.h>
 #include <dirent.h>
 #include <fcntl.h>
+#include <limits.h>
 #include <sys/stat.h>
 #include <time.h>
 #include <signal.h>
@@ -132,7 +133,9 @@ static void ls_dir(const char* root, const char* rel, int depth, int* first) {
         snprintf(r, sizeof r, "%s%s%s", rel, rel[0] ? "/" : "", e->d_name);
         snprintf(p, sizeof p, "%s/%s", root, r);
         if (lstat(p, &st)) continue;
-        printf("%s{\"name\":\"%s\",\"type\":\"%s\",\"size\":%lld,\"ino\":%llu", *first ? "" : ",", r, S_ISDIR(st.st_mode) ? "dir" : S_ISLNK(st.st_mode) ? "link" : S_ISREG(st.st_mode) ? "file" : "other", (long long)st.st_size, (unsigned long long)st.st_ino);
+        printf("%s{\"name\":\"", *first ? "" : ",");
+        { const char* q; for (q = r; *q; q++) { if (*q == '"' || *q == '\\') printf("\\%c", *q); else if ((unsigned char)*q < 0x20) printf("\\u%04x", *q); else printf("%c", *q); } }
+        printf("\",\"type\":\"%s\",\"size\":%lld,\"ino\":%llu", S_ISDIR(st.st_mode) ? "dir" : S_ISLNK(st.st_mode) ? "link" : S_ISREG(st.st_mode) ? "file" : "other", (long long)st.st_size, (unsigned long long)st.st_ino);
         *first = 0;
         if (S_ISREG(st.st_mode)) {
             FILE* f = fopen(p, "rb"); U8 buf[64]; size_t n, k; long long sz = (long long)st.st_size;
@@ -179,6 +182,13 @@ int main(int argc, char** argv) {
     mem = wasmMemoryAllocate(40, 40, false);
     before = malloc(MEMSIZE);
     if (!wasiInit(nargs, wargv, wenv)) return 2;
+    if (getenv("VERIF_BAD_PREOPENS")) {
+        /* an embedder that offers pre-opens the host refuses (no path, a path beyond the host's limit) and carries on: they take no number */
+        static char toolong[3 * PATH_MAX]; int r1, r2;
+        memset(toolong, 'p', sizeof toolong - 1); toolong[0] = '/';
+        r1 = wasiFileDescriptorAdd(-1, "", NULL); r2 = wasiFileDescriptorAdd(-1, toolong, NULL);
+        if (r1 || r2) { fprintf(stderr, "pre-open accepted: empty %d, too long %d\n", r1, r2); }
+    }
     /* descriptor 3: the pre-opened sandbox - by path only (what the examples do) or, with VERIF_PREOPEN_NATIVE, together with
        a directory descriptor the embedder has opened itself */
     if (!wasiFileDescriptorAdd(getenv("VERIF_PREOPEN_NATIVE") ? open(sandbox, O_RDONLY | O_DIRECTORY) : -1, (char*)sandbox, NULL)) return 2;
